@@ -80,6 +80,32 @@ Theorem C08_idle_stop : forall (tk : st -> st) c s, running s = false -> stop tk
 Proof. exact idle_stop. Qed.
 Print Assumptions C08_idle_stop.
 
+(* C08_idle_stop lifted to component trees: stop(c) called on a registered CHILD component (a manager on which
+   run() was never invoked: its own state is [never_run]) while the root runs -- from a handler of the child or of
+   the root, mid-chain, before or after the root's own stop, from the loop's thread or a second thread -- leaves the
+   root's loop state unchanged (only the ghost trace records the call) and raises nothing into the caller.  The
+   run() theorems above quantify over programs containing such steps. *)
+Theorem C08_child_stop_no_effect : forall tk thr c s,
+  exec_act tk (AStopChild thr c) s = (logt (TChildStop c) s, None).
+Proof. exact child_stop_no_effect. Qed.
+Print Assumptions C08_child_stop_no_effect.
+
+Theorem C08_child_stop_second_thread_no_effect : forall lg tk tm c s,
+  do_xact lg tk tm (XStopChild c) s = (logt (TChildStop c) s, false).
+Proof. exact child_stop_second_thread_no_effect. Qed.
+Print Assumptions C08_child_stop_second_thread_no_effect.
+
+(* child.stop(4) mid-chain and child.stop() from a second thread right before the root's stop(6): the chain
+   completes, `stopped` once, run() raises SystemExit(6) *)
+Example C08_ex_child_stop :
+  option_map (fun r => (dispK (trace (fst r)), snd r))
+    (run false false (prog_of [(KStarted, [BPlain [AFire false 0] RRet]);
+                               (KUser 0, [BPlain [AStopChild false (Some 4%Z); AFire false 1] RRet]);
+                               (KUser 1, [BPlain [AStopChild true None; AStop false (Some 6%Z)] RRet])])
+         3 50 (init [] []))
+  = Some ([KStarted; KGE; KUser 0; KGE; KUser 1; KGE; KStopped], Some 6%Z).
+Proof. exact child_stop_example. Qed.
+
 (* a manager that has stopped is at rest again (not running, no executing thread, nothing queued), and idle --
    so that every theorem above applies to its next run() -- unless a pre-empted stopping thread is still parked
    (its remainder, Model finish_late, runs outside run(): three inline ticks by the second thread) *)
